@@ -64,6 +64,33 @@ def strictlyInside (V : List (P2 α)) (p : P2 α) : Prop :=
   (∀ e, e ∈ edgesOf V → lit 0 < cross (e.2 - e.1) (p - e.1)) ∨
   (∀ e, e ∈ edgesOf V → cross (e.2 - e.1) (p - e.1) < lit 0)
 
+/-- `V` is a strictly convex polygon listed counter-clockwise without repeated vertices: every
+    vertex other than the two end points of an edge lies strictly to the left of that directed
+    edge (what `ConvexPolygon.__init__` accepts, after its reordering, for normal `+z`) -/
+def strictConvexCCW (V : List (P2 α)) : Prop :=
+  V.Nodup ∧ ∀ e, e ∈ edgesOf V → ∀ w, w ∈ V → w ≠ e.1 → w ≠ e.2 →
+    lit 0 < cross (e.2 - e.1) (w - e.1)
+
+/-- `p` strictly inside the counter-clockwise polygon `V`: strictly to the left of every edge -/
+def strictlyInsideCCW (V : List (P2 α)) (p : P2 α) : Prop :=
+  ∀ e, e ∈ edgesOf V → lit 0 < cross (e.2 - e.1) (p - e.1)
+
+/-! executable forms of the two hypotheses (run exactly over ℚ by the driver on the
+    implementation's stored vertices; soundness over ℝ: `Lemmas/DistToSurfaceCheck.lean`) -/
+
+def p2eqb (u v : P2 α) : Bool := eqb u.x v.x && eqb u.y v.y
+
+def nodupb : List (P2 α) → Bool
+  | [] => true
+  | v :: vs => vs.all (fun w => !p2eqb v w) && nodupb vs
+
+def strictConvexCCWb (V : List (P2 α)) : Bool :=
+  nodupb V && (edgesOf V).all fun e => V.all fun w =>
+    p2eqb w e.1 || p2eqb w e.2 || decide (lit 0 < cross (e.2 - e.1) (w - e.1))
+
+def strictlyInsideCCWb (V : List (P2 α)) (p : P2 α) : Bool :=
+  (edgesOf V).all fun e => decide (lit 0 < cross (e.2 - e.1) (p - e.1))
+
 /-- `p` is on the boundary of `V ⊕ disc(r)`: at distance exactly `r` from the core polygon
     (for `r = 0` this is the boundary of the polygon itself) -/
 def onSpheroBoundary (V : List (P2 α)) (r : α) (p : P2 α) : Prop :=
